@@ -344,6 +344,7 @@ func c19Payload(e *Env) func(*rapid.T) {
 		}
 		// round trip
 		enc := p1.(*consensus.Payload).MarshalUnsigned()
+		enc0 := bytes.Clone(enc) // what the encoder returned, as a queue or a signer would keep it
 		dec := new(consensus.Payload)
 		err := dec.UnmarshalUnsigned(enc)
 		if err != nil {
@@ -374,6 +375,19 @@ func c19Payload(e *Env) func(*rapid.T) {
 				if again.UnmarshalUnsigned(mp.(*consensus.Payload).MarshalUnsigned()) == nil && again.Hash() != mp.Hash() {
 					viol("hash-stale-after-decode", "a payload object decoded a second time keeps the hash of the first content")
 				}
+			}
+		}
+		// the encoding handed out earlier is still the encoding of p1 after other payloads have been hashed and encoded
+		// (the mutant, the decoded copy): bytes that alias encoder state are not an encoding of anything for long
+		_ = md.build().(*consensus.Payload).MarshalUnsigned()
+		_ = md.build().Hash()
+		if !bytes.Equal(enc, enc0) {
+			viol("encoding-overwritten-by-later-use", fmt.Sprintf("the bytes returned by MarshalUnsigned of a %s payload changed when another payload was encoded or hashed", d.T))
+		}
+		if err == nil {
+			late := new(consensus.Payload)
+			if e2 := late.UnmarshalUnsigned(enc); e2 != nil || late.Hash() != p1.Hash() {
+				viol("encoding-overwritten-by-later-use", fmt.Sprintf("the kept encoding of a %s payload no longer decodes to it after another payload was encoded (err=%v)", d.T, e2))
 			}
 		}
 		// a proposal rebuilt from a recovery message has the original's hash; rebuilt responses name it
